@@ -670,7 +670,7 @@ func (c *Ctx) c36Get(fn *an.Fn, isM func(ast.Expr) bool, listCall func(ast.Node,
 			fromElem := an.Contains(res0, func(n ast.Node) bool {
 				se, ok := n.(*ast.SelectorExpr)
 				return ok && an.FieldSel(info, se, "lruSessionCacheEntry", "state")
-			}) && an.MentionsObj(info, res0, elemObj)
+			}) && mentionsThroughLocals(fn, res0, elemObj, 0)
 			id, _ := an.Unparen(rs.Results[1]).(*ast.Ident)
 			if !fromElem || id == nil || id.Name != "true" {
 				okRet = false
